@@ -55,18 +55,40 @@ FORMULAS = {
 NORMALISED = ["ndvi", "nbr", "nbr2", "ndmi"]
 
 
+SIGNED_DTYPES = [np.int16, np.int32, np.int64, np.float32, np.float64]
+# values at and just beyond the edges of the 8- and 16-bit types (all sums the kernels form from them stay exact in float32)
+EDGES = {"uint8": [0, 1, 254, 255], "uint16": [0, 255, 256, 65534, 65535], "int16": [-32768, -32767, -1, 0, 255, 256, 32767],
+         "wide": [-32769, -32768, -256, -1, 0, 255, 256, 32767, 32768, 65535, 65536, 100000]}
+SIGN_KINDS = ["signed", "slightly-negative", "both-negative", "opposite"]
+
+
 def gen_band(rng, shape, dtype, kind):
+    """kinds: zeros / small / wide / dyadic (non-negative, as before); signed (-16..16, any sign per cell); both-negative;
+    slightly-negative and opposite are made from these by `make_case`; edges: values at the edges of the band's own dtype.
+    A kind the dtype cannot hold degrades to its absolute values (unsigned) / integers (integer dtypes)."""
     h, w = shape
     n = h * w
+    dt = np.dtype(dtype)
     if kind == "zeros":
         vals = [0] * n
     elif kind == "small":
         vals = [rng.choice([0, 0, 1, 2, 3, 4, 5, 8, 16]) for _ in range(n)]
     elif kind == "wide":
         vals = [rng.randrange(0, 250) for _ in range(n)]
+    elif kind == "signed":
+        vals = [rng.randrange(-128, 129) / 8 if dt.kind == "f" else rng.randrange(-16, 17) for _ in range(n)]
+    elif kind == "both-negative":
+        vals = [-rng.choice([0, 1, 2, 3, 4, 5, 8, 16, 100]) for _ in range(n)]
+    elif kind == "edges":
+        pool = EDGES.get(dt.name, EDGES["wide"])
+        if dt.kind == "u":
+            pool = [v for v in pool if v >= 0]
+        vals = [rng.choice(pool) for _ in range(n)]
     else:  # dyadic
         vals = [rng.randrange(0, 64) / 8 for _ in range(n)]
     a = np.array(vals, dtype=np.float64).reshape(h, w)
+    if dt.kind == "u":
+        a = np.abs(a)
     if np.issubdtype(dtype, np.integer):
         a = np.floor(a)
     a = a.astype(dtype)
@@ -197,24 +219,42 @@ def model_request(kernel, kinfo, bands, scal_in_kernel_order):
 
 
 def make_case(rng, fn, valid=True):
+    """band value classes: non-negative (zeros / small / wide / dyadic), sign classes (signed: any sign per cell;
+    slightly-negative: non-negative bands, a few small negative cells in ONE band; both-negative; opposite: second band =
+    minus the first, every denominator of a normalised difference zero), edges (values at the edges of each band's dtype);
+    dtypes: one for all bands, or (35%, always for edges) each band its own -- uint8..int64, float32/64."""
     names, snames, _ = FORMULAS[fn]
     shape = (rng.randrange(1, 5), rng.randrange(1, 6))
-    dtype = rng.choice(DTYPES)
-    kind = rng.choice(["small", "small", "dyadic", "wide", "zeros"])
-    bands = [gen_band(rng, shape, dtype, kind) for _ in names]
-    if rng.random() < 0.3 and len(bands) >= 2:
+    kind = rng.choice(["small", "small", "dyadic", "wide", "zeros", "edges", "edges"] + SIGN_KINDS)
+    signed = kind in SIGN_KINDS
+    mixed = kind == "edges" or rng.random() < 0.35
+    pool = SIGNED_DTYPES if signed else DTYPES
+    dtype = rng.choice(pool)
+    dtypes = [rng.choice(pool) if mixed else dtype for _ in names]
+    base_kind = {"slightly-negative": rng.choice(["small", "wide", "dyadic"]), "opposite": "signed"}.get(kind, kind)
+    bands = [gen_band(rng, shape, dt, base_kind) for dt in dtypes]
+    if kind == "slightly-negative":
+        i = rng.randrange(len(bands))
+        for _ in range(rng.randrange(1, 4)):
+            y, x = rng.randrange(shape[0]), rng.randrange(shape[1])
+            bands[i][y, x] = rng.choice([-1, -2, -0.125, -0.5]) if bands[i].dtype.kind == "f" else rng.choice([-1, -2, -3])
+    elif kind == "opposite" and len(bands) >= 2:
+        bands[1] = (-bands[0].astype(np.float64)).astype(bands[1].dtype)
+    elif rng.random() < 0.3 and len(bands) >= 2 and not mixed:
         bands[1] = bands[0].copy()  # equal bands -> zero numerators / denominators
-    return dict(fn=fn, bands=bands, scal=gen_scalars(rng, fn, valid), dtype=np.dtype(dtype).name, kind=kind)
+    return dict(fn=fn, bands=bands, scal=gen_scalars(rng, fn, valid), dtype=np.dtype(dtype).name,
+                dtypes=[b.dtype.name for b in bands], kind=kind, mixed=len({b.dtype.name for b in bands}) > 1)
 
 
 def case_json(c):
-    return dict(fn=c["fn"], dtype=c["dtype"], scal=c["scal"],
-                bands=[[[tok(v) for v in row] for row in b.tolist()] for b in c["bands"]])
+    return dict(fn=c["fn"], dtype=c["dtype"], dtypes=[b.dtype.name for b in c["bands"]], scal=c["scal"],
+                bands=[[[tok(v) for v in row] for row in b.astype(np.float64).tolist()] for b in c["bands"]])
 
 
 def case_from_json(j):
-    bands = [np.array([[_un(t) for t in row] for row in b], dtype=np.float64).astype(j["dtype"])
-             for b in j["bands"]]
+    dts = j.get("dtypes") or [j["dtype"]] * len(j["bands"])
+    bands = [np.array([[_un(t) for t in row] for row in b], dtype=np.float64).astype(dt)
+             for b, dt in zip(j["bands"], dts)]
     return dict(fn=j["fn"], bands=bands, scal=j["scal"], dtype=j["dtype"], kind="replay")
 
 
@@ -273,11 +313,10 @@ def gen_jointgraph(rng, fn, modes):
     turn), one scalar parameter, nothing -- and may be handed to a sibling index with the same backend"""
     base = make_case(rng, fn, True)
     h, w = base["bands"][0].shape
-    dt = np.dtype(base["dtype"]).type
     calls, dims = [dict(fn=fn, bands=list(base["bands"]), scal=dict(base["scal"]))], []
     for i in range(len(base["bands"])):
         for _ in range(8):
-            nb = gen_band(rng, (h, w), dt, rng.choice(["small", "dyadic", "wide"]))
+            nb = gen_band(rng, (h, w), base["bands"][i].dtype.type, rng.choice(["small", "dyadic", "wide", "signed"]))
             if not np.array_equal(nb, base["bands"][i], equal_nan=True):
                 break
         else:
@@ -307,7 +346,8 @@ def gen_jointgraph(rng, fn, modes):
 
 def jointgraph_json(g, mode):
     return dict(stream="joint-graph", dtype=g["dtype"], chunks=g["chunks"], sched=g["sched"], mode=mode, dims=g["dims"],
-                calls=[dict(fn=c["fn"], scal=c["scal"], bands=[[[tok(v) for v in row] for row in b.tolist()] for b in c["bands"]])
+                calls=[dict(fn=c["fn"], scal=c["scal"], dtypes=[b.dtype.name for b in c["bands"]],
+                            bands=[[[tok(v) for v in row] for row in b.astype(np.float64).tolist()] for b in c["bands"]])
                        for c in g["calls"]],
                 note="these indices are called on Dask-backed bands and their lazy results evaluated in ONE graph (mode compute: "
                      "dask.compute(a.data, b.data, ...); dataset: xr.Dataset({...}).compute(); minus: (a - b).data.compute()); each "
@@ -316,7 +356,8 @@ def jointgraph_json(g, mode):
 
 def jointgraph_from_json(j):
     calls = [dict(fn=c["fn"], scal=c["scal"],
-                  bands=[np.array([[_un(t) for t in row] for row in b], dtype=np.float64).astype(j["dtype"]) for b in c["bands"]])
+                  bands=[np.array([[_un(t) for t in row] for row in b], dtype=np.float64).astype(dt)
+                         for b, dt in zip(c["bands"], c.get("dtypes") or [j["dtype"]] * len(c["bands"]))])
              for c in j["calls"]]
     return dict(calls=calls, dims=j.get("dims", []), modes=[j["mode"]], chunks=j["chunks"], dtype=j["dtype"], sched=j["sched"])
 
@@ -385,7 +426,10 @@ def jointgraph_stream(r, per_fn, n_modes):
 def run(r, n_override=None):
     wir, rep = wiring()
     n_per = {"quick": 24, "thorough": 160}[r.tier] if n_override is None else n_override
-    r.rule = ("per index: random shape<=4x5, dtype in uint8..float64, bands from small ints / dyadics / 0..250 / zeros, "
+    r.rule = ("per index: random shape<=4x5; band value classes: non-negative (small ints / dyadics / 0..250 / zeros), sign classes "
+              "(any sign per cell; a few small negative cells in one band; all negative; second band = minus the first), values at the "
+              "edges of each band's dtype (0/255/256/65535/65536, -32768/-32769 ...); dtypes uint8..int64, float32/64 -- one for all "
+              "bands or (35%, always for the edge class) each band its own; "
               "equal bands 30%, NaN cells for floats, valid and invalid soil_factor/gain; non-trivial = distinct "
               "(function, dtype, bands, scalars) with at least one defined and (when possible) one undefined cell; "
               "stream joint-graph: per index a group of calls on Dask-backed bands -- the first as above, the others differing "
@@ -402,7 +446,8 @@ def run(r, n_override=None):
             status, out = call_index(fn, c["bands"], c["scal"])
             bad = oracle_index(fn, c["bands"], c["scal"], status, out)
             r.case(case_json(c), desc=case_json(c) if k == 0 else None, nontrivial=(c["kind"] != "zeros"),
-                   tags=[f"fn:{fn}", f"dtype:{c['dtype']}", f"status:{status}", f"kind:{c['kind']}"])
+                   tags=[f"fn:{fn}", f"status:{status}", f"kind:{c['kind']}", "dtypes:" + ("mixed" if c["mixed"] else "one")] +
+                        sorted({f"dtype:{d}" for d in c["dtypes"]}))
             if bad:
                 r.fail(f"{fn}:formula", bad, case_json(c))
                 continue
